@@ -113,9 +113,11 @@ def main(chk):
     tmp = os.getcwd()
     maxgen, depth = (2, 4) if chk.quick else (2, 5)   # (3, 5): 12k states per pipeline but ~10 GB of terms each
     histories = []
-    with concurrent.futures.ThreadPoolExecutor(max_workers=4) as pool:     # one TLC process per pipeline, four at a time
+    # one TLC process per pipeline, four at a time (two in the thorough tier: ~8 GB of terms per process at depth 5)
+    with concurrent.futures.ThreadPoolExecutor(max_workers=4 if chk.quick else 2) as pool:
         runs = list(pool.map(lambda pipe: chk.tlc('Lifecycle', cfg(pipe, maxgen, depth, os.path.join(tmp, f'lc{pipe}.cfg')),
-                                                  require=['Train', 'Load', 'Race'], workers=4, heap='12g'), range(1, NPIPES + 1)))
+                                                  require=['Train', 'Load', 'Race'], workers=4, heap='5g' if chk.quick else '12g'),
+                             range(1, NPIPES + 1)))
     for pipe, res in enumerate(runs, start=1):
         recs = res.json_prints()
         if not recs:
